@@ -54,15 +54,17 @@ Section ZVec.
     | Some ps =>
       let Q := zcomb Wq ps in
       let S := zsum Wq in
-      zweights_ok Wq ps && (0 <=? T) && forallb (fun y => zdot Q Q - T <=? S * zdot Q y) Y
+      let QQT := zdot Q Q - T in
+      zweights_ok Wq ps && (0 <=? T) && forallb (fun y => QQT <=? S * zdot Q y) Y
     end.
 
   (** [|p| <= |x| + en/ed] for every [x] with [Ssq <= S^2 |x|^2]  (all arguments integers):
       with [P = S ed |p|], [N = ed sqrt Ssq], [E = S en]:  [P <= N + E], tested without roots *)
   Definition norm_ub_z (p : V3 Z) (S Ssq en ed : Z) : bool :=
-    let P2 := S * S * (ed * ed) * zdot p p in
-    let N2 := ed * ed * Ssq in
-    let E2 := S * S * (en * en) in
+    let SS := S * S in let dd := ed * ed in
+    let P2 := SS * dd * zdot p p in
+    let N2 := dd * Ssq in
+    let E2 := SS * (en * en) in
     let D := P2 - N2 - E2 in
     (D <=? 0) || (D * D <=? 4 * E2 * N2).
 
@@ -115,7 +117,7 @@ Section Decode.
       let sh := e + N in
       let a := if sh <? 0 then
                  (if Z.eqb (Z.land (Zpos m) (Z.ones (- sh))) 0 then Some (Z.shiftr (Zpos m) (- sh)) else None)
-               else Some (Zpos m * 2 ^ sh) in
+               else Some (Z.shiftl (Zpos m) sh) in
       match a with Some z => Some (if s then - z else z) | None => None end
     | _ => None
     end.
